@@ -367,6 +367,32 @@ def run(ctx):
         ctx.run_case(decode_selection, {"seed": sd, "enc": i % len(encs)})
     ctx.floor("decode_selection", 50)
 
+    # ---------------- F. long texts: lengths at and next to block sizes (the text is what was given, letter for letter, at any length) -----
+    def long_text(case):
+        import random
+        from bnpmon.util import boundary_length
+        r = random.Random(case["seed"])
+        name, enc = encs[case["enc"]]
+        alphabet = list(enc.get_alphabet())
+        L = boundary_length(r, 1 << 18)
+        nprng = np.random.default_rng(case["seed"])
+        codes = nprng.integers(0, len(alphabet), size=L)
+        text = "".join(np.array(alphabet)[codes]) if L else ""
+        want = text.upper()
+        x = bnp.as_encoded_array(text, enc)
+        routes = {"to_string": lambda: x.to_string(), "decode": lambda: enc.decode(x).to_string(), "change_encoding": lambda: bnp.change_encoding(x, BaseEncoding).to_string(),
+                  "row-of-a-ragged-array": lambda: bnp.as_encoded_array(["", text, alphabet[0]], enc).tolist()[1], "str-of-slices": lambda: x[:L // 2].to_string() + x[L // 2:].to_string()}
+        for rt, f in routes.items():
+            got = f().upper()
+            diff = next((i for i, (a, b) in enumerate(zip(got, want)) if a != b), None)
+            ctx.check("long-text", got == want, "long-text-differs:%s" % rt, "%s text of %d letters came back with %d letters via %s (first difference at %r)" % (name, L, len(got), rt, diff),
+                      {"encoding": name, "length": L, "route": rt, "got_length": len(got), "first_difference": diff, "seed": case["seed"]}, (name, rt, L))
+        ctx.count("long_texts")
+
+    for i in range(ctx.share(ctx.pick(160, 1600))):
+        ctx.run_case(long_text, {"seed": ctx.seed * 7919 + ctx.shard * 104729 + i, "enc": (i + ctx.shard) % len(encs)})
+    ctx.floor("long_texts", 4)
+
     if ctx.shard == 0:
         ctx.run_case(numeric, "numeric")
         ctx.run_case(labels, "labels")
